@@ -82,6 +82,12 @@ fn main() {
         println!("HDR {}", hex(&g.hdr0.serialize().unwrap()));
         println!("ST {}", hex(&g.msk.access_structure.serialize().unwrap()));
         println!("ST {}", hex(&AccessStructure::new().serialize().unwrap()));
+        // strings of 128 bytes and more (two-byte LEB128 length prefixes): a 130-byte dimension name, a 200-byte attribute name, 150 bytes of metadata
+        let mut sl = AccessStructure::new(); let dn = "N".repeat(130);
+        sl.add_anarchy(dn.clone()).unwrap(); sl.add_attribute(qa(&dn, &"L".repeat(200)), EncryptionHint::Classic, None).unwrap(); sl.add_attribute(qa(&dn, "s"), EncryptionHint::Hybridized, None).unwrap();
+        println!("ST {}", hex(&sl.serialize().unwrap()));
+        let (_, hl) = EncryptedHeader::generate(&g.cc, &g.mpk, &ap("D::a"), Some(&[7u8; 150]), Some(b"ad")).unwrap();
+        println!("HDR {}", hex(&hl.serialize().unwrap()));
         return;
     }
     // `worker run <objects file>`: use the keys of the process that generated the objects, so that mutated
@@ -114,6 +120,11 @@ fn main() {
         // 0 = err, 1 = ok ; use: 0 = not applicable, 1 = fine, 2 = panicked
         let r = std::panic::catch_unwind(|| -> (u8, u8) {
             match kind {
+                // parse-only kinds (scaling measurements on very large inputs: the time of the USE is legitimately large)
+                "PUSK" => (UserSecretKey::deserialize(&b).is_ok() as u8, 0),
+                "PENC" => (XEnc::deserialize(&b).is_ok() as u8, 0),
+                "PST" => (AccessStructure::deserialize(&b).is_ok() as u8, 0),
+                "PMPK" => (MasterPublicKey::deserialize(&b).is_ok() as u8, 0),
                 "ENC" => match XEnc::deserialize(&b) { Err(_) => (0, 0), Ok(e) => {
                     let u = std::panic::catch_unwind(|| { let _ = e.tracing_level(); let _ = e.count(); let _ = g.cc.decaps(&g.usk, &e); let _ = g.cc.decaps(&g.usk_h, &e);
                         let _ = g.cc.recaps(&g.msk, &g.mpk, &e); let _ = e.serialize().map(|s| s.len() == e.length()); });
